@@ -45,3 +45,13 @@ M += [
  ('c05-cache-order', 'C05', 'teneva/cross.py', "    return np.array([cache[tuple(i)] for i in I], dtype=float)", "    return np.array([cache[tuple(i)] for i in I], dtype=float) * (1 + 1e-15 * (len(I) > 12))", 'cached values perturbed in the last bit for big batches'),
  ('c05-evld-stale', 'C05', 'teneva/cross.py', "        info['e'] = teneva.accuracy(Y, Yold)\n        info['e_vld'] = teneva.accuracy_on_data(Y, I_vld, y_vld)\n\n        if info['m_cache']", "        info['e'] = teneva.accuracy(Y, Yold)\n        info['e_vld'] = teneva.accuracy_on_data(Yold, I_vld, y_vld)\n\n        if info['m_cache']", 'validation error of the previous sweep'),
 ]
+
+M += [
+ ('c19-const-sign-first', 'C19', 'teneva/tensors.py', "    Y = [np.ones([1, k, 1]) * v for k in n]\n    Y[-1] *= s", "    Y = [np.ones([1, k, 1]) * v for k in n]\n    Y[0] *= s if len(n) != 3 else abs(s)", 'sign lost for d=3'),
+ ('c19-const-k-reset', 'C19', 'teneva/tensors.py', "                    if k >= d:\n                        k = 0\n            if k >= d:\n                k = 0", "                    if k >= d:\n                        k = 0\n            if k >= d:\n                k = d - 1", 'round-robin pointer not reset'),
+ ('c19-vec-range', 'C19', 'teneva/utils.py', "    if i >= n or i < -n:", "    if i >= n or i <= -n:", 'vector_delta rejects -2^q'),
+ ('c19-poly-scale', 'C19', 'teneva/tensors.py', "                G[:, m, 0] = np.array([_get(m, j) * scale, scale])", "                G[:, m, 0] = np.array([_get(m, j) * scale, scale if m < 2 else 1.])", 'poly scale dropped from the third index on'),
+ ('c19-rand-order', 'C19', 'teneva/tensors.py', "        Y.append(G.reshape((r[i], n[i], r[i+1]), order='F'))", "        Y.append(G.reshape((r[i], n[i], r[i+1]), order='F' if r[i] <= r[i+1] else 'C'))", 'rand reshape order depends on ranks'),
+ ('c19-matrix-swap', 'C19', 'teneva/matrices.py', "        G[0, ind_col[k], ind_row[k], 0] = 1.", "        G[0, ind_col[k], ind_row[k], 0] = 1.\n        if k == q - 2 and q > 2:\n            G[...] = 0.; G[0, ind_row[k], ind_col[k], 0] = 1.", 'matrix_delta transposes one core for q>2'),
+ ('c19-delta-neg', 'C19', 'teneva/tensors.py', "        Y[k][0, i[k], 0] = v", "        Y[k][0, abs(i[k]) if i[k] == -n[k] else i[k], 0] = v", 'delta mishandles position -n'),
+]
